@@ -439,42 +439,40 @@ def _assembly(ctx):
     except AnalysisError as e:
         ctx.error('C02.D6', str(e))
         return
-    texts = [norm(x) for x in walk_no_nested(pg) if isinstance(x, (ast.Assign, ast.Expr, ast.For))]
-    V = lambda stmt, wit, what: ctx.violation('C02.D6', '%s::parse_grid' % FJ, stmt, wit, what, file=FJ, line=pg.lineno,
-                                              engine='E7')
-
-    def need(alts, what, wit):
-        if any(a in texts for a in alts):
-            ctx.ob('C02.D6', what, True, '%s:%d' % (FJ, pg.lineno))
-        else:
-            V(alts[0], wit, 'missing: %s' % what)
-
-    need(["meta = parsed.pop('meta')"], 'the meta object is taken from the document', 'grid metadata is lost')
-    need(["version = Version(meta.pop('ver'))"], 'the version is meta.ver', 'the parsed grid has the wrong version')
-    need(['metadata[name] = parse_embedded_scalar(value, version=version)'],
-         'every remaining meta item is decoded into the grid metadata, in order', 'grid metadata items are dropped')
-    need(['grid = Grid(version=version, metadata=metadata)'], 'the grid is built with that version and metadata',
-         'version/metadata do not reach the grid')
-    need(["name = col.pop('name')"], 'each column takes its name from cols[].name', 'columns lose their names')
-    need(['meta[key] = parse_embedded_scalar(value, version=version)'], 'the remaining keys of a column are its metadata',
-         'column metadata is dropped')
-    need(['grid.column[name] = meta'], 'columns are added in document order', 'columns are lost or re-ordered')
-    need(['parsed_row[col] = parse_embedded_scalar(value, version=version)'], 'every key of a row is decoded',
-         'cells are dropped')
-    need(['grid.append(parsed_row)'], 'rows are appended in document order', 'rows are lost')
-    heads = ['for %s in %s' % (norm(x.target), norm(x.iter)) for x in walk_no_nested(pg) if isinstance(x, ast.For)]
-    for h, what, wit in (
-            ('for (name, value) in meta.items()', 'grid metadata is decoded in document order', 'grid metadata comes back in another order'),
-            ("for col in parsed.pop('cols')", 'columns are read in document order', 'columns come back in another order'),
-            ('for (key, value) in col.items()', 'column metadata is decoded in document order', 'column metadata comes back in another order'),
-            ('for (col, value) in row.items()', 'every key of a row is visited', 'cells are dropped')):
-        if h in heads:
-            ctx.ob('C02.D6', what, True, '%s:%d' % (FJ, pg.lineno))
-        else:
-            V(h, wit, 'loop `%s` not found (loops: %s)' % (h, heads))
-    loops = [norm(x.iter) for x in walk_no_nested(pg) if isinstance(x, ast.For)]
-    if "parsed.pop('rows', []) or []" in loops:
-        ctx.ob('C02.D6', 'rows may be missing or null', True, '%s:%d' % (FJ, pg.lineno))
+    from .. import match
+    fns = [f_ for f_ in match.with_local_callees(m, 'jsonparser', pg) if f_.name not in ('parse_embedded_scalar', 'parse_scalar')]
+    sc = match.Script(ctx, 'C02.D6', fns, FJ, '%s::parse_grid' % FJ, engine='E7')
+    sc.need(['_R_parsed = json.loads(_R_input)'], 'text input is decoded with json.loads', 'a JSON text is not decoded')
+    sc.need(["_R_meta = _R_parsed.pop('meta')", "_R_meta = _R_parsed['meta']"], 'the meta object is taken from the document',
+            'grid metadata is lost')
+    sc.need(["_R_version = Version(_R_meta.pop('ver'))"], 'the version is meta.ver (and is removed from the metadata)',
+            'the parsed grid has the wrong version, or `ver` shows up as a metadata tag')
+    sc.need(['for (_R_mname, _R_mvalue) in _R_meta.items():\n    pass'], 'grid metadata is visited in document order',
+            'grid metadata comes back in another order')
+    sc.need(['_R_metadata[_R_mname] = parse_embedded_scalar(_R_mvalue, version=_R_version)'],
+            'every remaining meta item is decoded into the grid metadata', 'grid metadata items are dropped or mis-keyed')
+    sc.need(['_R_grid = Grid(version=_R_version, metadata=_R_metadata)'], 'the grid is built with that version and metadata',
+            'version/metadata do not reach the grid')
+    sc.need(["for _R_col in _R_parsed.pop('cols'):\n    pass", "for _R_col in _R_parsed['cols']:\n    pass"],
+            'columns are read in document order', 'columns come back in another order')
+    sc.need(["_R_cname = _R_col.pop('name')"], 'each column takes its name from cols[].name (removed from its metadata)',
+            'columns lose their names, or `name` shows up as column metadata')
+    sc.need(['for (_R_ckey, _R_cvalue) in _R_col.items():\n    pass'], 'column metadata is visited in document order',
+            'column metadata comes back in another order')
+    sc.need(['_R_cmeta[_R_ckey] = parse_embedded_scalar(_R_cvalue, version=_R_version)'],
+            'the remaining keys of a column are decoded as its metadata', 'column metadata is dropped')
+    sc.need(['_R_grid.column[_R_cname] = _R_cmeta'], 'columns are added with their metadata', 'columns are lost or lose their metadata')
+    sc.need(["for _R_row in _R_parsed.pop('rows', []) or []:\n    pass"],
+            'rows may be missing or null, and are read in document order',
+            'a grid object without rows (or with rows: null) raises, or rows come back in another order',
+            bad=["for _R_row in _R_parsed.pop('rows'):\n    pass", "for _R_row in _R_parsed['rows']:\n    pass",
+                 "for _R_row in _R_parsed.pop('rows', []):\n    pass", "for _R_row in _R_parsed.get('rows'):\n    pass",
+                 "for _R_row in _R_parsed.get('rows', []):\n    pass"])
+    sc.need(['for (_R_rcol, _R_rvalue) in _R_row.items():\n    pass'], 'every key of a row is visited', 'cells are dropped')
+    sc.need(['_R_prow[_R_rcol] = parse_embedded_scalar(_R_rvalue, version=_R_version)'], 'every cell of a row is decoded',
+            'cells are dropped or stored under the wrong column')
+    sc.need(['_R_grid.append(_R_prow)'], 'rows are appended in document order', 'rows are lost')
+    sc.need(['return _R_grid'], 'the assembled grid is returned', 'parse returns something else than the grid')
     # writer side shape
     try:
         dg = m.func('jsondumper', '_dump_grid_to_json')
